@@ -265,6 +265,8 @@ def alias_effects(prog, fi):
                     out.append((n, f"`out=` writes into `{astq.src(k.value)}`"))
                 if k.arg in ("overwrite_data", "overwrite_x", "overwrite_a", "overwrite_b") and isinstance(k.value, ast.Constant) and k.value.value is True:
                     out.append((n, f"`{k.arg}=True` lets the library overwrite its input"))
+                if k.arg == "copy" and isinstance(k.value, ast.Constant) and k.value.value is False and nm in ("numpy.nan_to_num",) and n.args and is_alias(n.args[0]):
+                    out.append((n, f"`{astq.src(n, 50)}` replaces the values in place (copy=False) in an array that may alias a parameter / the bound data"))
     return out, alias
 
 
@@ -427,7 +429,11 @@ def poser(prog, run):
     names = any("self.names" in t and "len(" in t for s_, t in guards)
     run.ob("R-poser", g.qual, "one name per algorithm is enforced", names, "len(self.names) compared with the number of algorithms" if names else "no check on the number of names", witness="no-names-check", file=f, node=g.node)
     types = any("type(" in t for s_, t in guards)
-    run.ob("R-poser", g.qual, "identical algorithm types in identical order are enforced", types, "type lists compared" if types else "no comparison of algorithm types", witness="no-type-check", file=f, node=g.node)
+    # exact types: an isinstance() test also accepts subclasses (SSIcov for SSIdat, EFDD for FDD) whose results are not comparable
+    loose = any("isinstance(" in t and ("type(" in t or "algo" in t) for s_, t in guards)
+    run.ob("R-poser", g.qual, "identical algorithm types in identical order are enforced", (types and not loose) if (types or loose) else False,
+           ("type lists compared" if not loose else "algorithm types compared with isinstance(): subclasses of the first setup's algorithms are accepted") if (types or loose) else "no comparison of algorithm types",
+           witness="no-type-check" if not loose else "isinstance", file=f, node=g.node)
     # exhausted in __init__
     exhausted = False
     for n in ast.walk(init.node):
